@@ -58,6 +58,8 @@ var Spec = []string{
 	"dir/index.html", "dir/index.html.gz", "dir/b.txt", "dir/sub/c.txt", "dir/sub/deep/d.txt",
 	"noindex/d.txt", "noindex/e.html", "noindex/priv/n1.txt", "noindex/priv/more/n2.txt", "noindex/UPPER.TXT", "noindex/inner/f.txt", "noindex/d.txt.gz",
 	"secret/index.html", "secret/s1.txt", "secret/s1.txt.gz", "secret/deep/s2.txt", "secret/pub/p.txt", "secret/page.html", "secret/t.md",
+	// siblings of secret/pub whose names begin with "pub": an excluded directory is not a name prefix
+	"secret/public.key", "secret/pubkeys/k.txt",
 	"internal/i1.txt", "internal/sub/i2.txt",
 	"public/p1.txt", "public/tpl.html", "public/readme.md",
 	"sp ace/g.txt",
